@@ -154,7 +154,7 @@ namespace Dune
       friend constexpr IntegralRangeIterator operator+(difference_type n, const IntegralRangeIterator &a) noexcept { return IntegralRangeIterator(a.value_ + n); }
       friend constexpr IntegralRangeIterator operator-(const IntegralRangeIterator &a, difference_type n) noexcept { return IntegralRangeIterator(a.value_ - n); }
 
-      constexpr difference_type operator-(const IntegralRangeIterator &other) const noexcept { return (static_cast<difference_type>(value_) - static_cast<difference_type>(other.value_)); }
+      constexpr difference_type operator-(const IntegralRangeIterator &other) const noexcept { return static_cast<difference_type>(value_ - other.value_); }
 
     private:
       value_type value_;
